@@ -416,7 +416,8 @@ def unique_defs(cx):
             if nm in d or not isinstance(v, ast.AST) or n.kind != 'stmt':
                 bad.add(nm)
             d[nm] = v
-    return {k: v for k, v in d.items() if k not in bad}
+    # a container display is an object that is filled in later, not a value to read back
+    return {k: v for k, v in d.items() if k not in bad and not isinstance(v, (ast.List, ast.Dict, ast.Set, ast.ListComp, ast.DictComp, ast.SetComp))}
 
 
 def inline_ast(cx, expr):
@@ -559,3 +560,72 @@ def shared_obligations(R, oid, module_name, wanted, title=None):
     if n == 0:
         raise AnalysisError(f'shared obligations {sorted(wanted)} of {module_name} have no instance')
     return n
+
+
+def explore(cx, atom_eval, start=None, stop=()):
+    """path-sensitive reachability under a valuation of some atomic conditions: `atom_eval(expr)` gives True / False for the
+    expressions the valuation decides and None otherwise. Boolean locals assigned a constant or a decided expression are tracked
+    along each path (so `flag = True ... if flag:` and an expanded boolean helper are followed exactly); undecided tests fork.
+    -> set of reachable CFG node ids"""
+    cfg = cx.cfg
+
+    def ev(e, env):
+        v = atom_eval(e)
+        if v is not None:
+            return v
+        if isinstance(e, ast.Constant) and isinstance(e.value, (bool, type(None))):
+            return bool(e.value)
+        if isinstance(e, ast.Name) and e.id in env:
+            return env[e.id]
+        if isinstance(e, ast.UnaryOp) and isinstance(e.op, ast.Not):
+            v = ev(e.operand, env)
+            return None if v is None else (not v)
+        if isinstance(e, ast.BoolOp):
+            vs = [ev(x, env) for x in e.values]
+            if isinstance(e.op, ast.And):
+                if any(v is False for v in vs):
+                    return False
+                return True if all(v is True for v in vs) else None
+            if any(v is True for v in vs):
+                return True
+            return False if all(v is False for v in vs) else None
+        return None
+    seen = set()
+    todo = [(start or cfg.entry, ())]
+    out = set()
+    while todo:
+        n, envt = todo.pop()
+        key = (n.id, envt)
+        if key in seen:
+            continue
+        seen.add(key)
+        out.add(n.id)
+        if n.id in stop and n is not (start or cfg.entry):
+            continue
+        env = dict(envt)
+        if n.kind == 'stmt' and isinstance(n.ast, (ast.Assign, ast.AnnAssign, ast.AugAssign)):
+            tg = n.ast.targets if isinstance(n.ast, ast.Assign) else [n.ast.target]
+            for t in tg:
+                for x in ast.walk(t):
+                    if isinstance(x, ast.Name):
+                        env.pop(x.id, None)
+            if isinstance(n.ast, ast.Assign) and len(tg) == 1 and isinstance(tg[0], ast.Name):
+                v = ev(n.ast.value, dict(envt))
+                if v is not None:
+                    env[tg[0].id] = v
+        elif n.kind in ('for', 'with', 'handler'):
+            for (nm, _) in cfg.defs_of(n):
+                env.pop(nm, None)
+        nenv = tuple(sorted(env.items()))
+        if n.kind == 'test':
+            v = ev(n.ast, env)
+            for (m, l) in n.succ:
+                if l == 'exc':
+                    continue
+                if v is None or l == v:
+                    todo.append((m, nenv))
+        else:
+            for (m, l) in n.succ:
+                if l != 'exc':
+                    todo.append((m, nenv))
+    return out
